@@ -3,7 +3,7 @@ import json
 import os
 
 from common import Inconclusive, finish, log
-from codec_common import iter_events, judge_traces, require, tlc_cases, write_shards
+from codec_common import iter_events, judge_traces, require, selftest_corruption, tlc_cases, write_shards
 
 ALPHABET = [0, 1, 127, 128, 129, 130, 183, 184, 185, 192, 193, 194, 247, 248, 249, 255]
 
@@ -26,7 +26,7 @@ def compact(e):
     if e["event"] == "Decode":
         return {"event": "Decode", "src": e["src"], "in": e["in"][:40], "in_len": len(e["in"]),
                 "accepted_by": [r["t"] for r in e["res"] if r["ok"]], "split_ok": e["split"]["ok"],
-                "walk": {k: e["walk"][k] for k in ("ok", "read")}, "alloc": e["alloc"]}
+                "streams": {w["n"]: [w["ok"], w["read"]] for w in e["streams"]}, "alloc": e["alloc"]}
     return {"event": "Encode", "src": e["src"], "t": e["t"], "val": json.dumps(e["val"])[:200], "enc": e["enc"][:40],
             "back_ok": e["back"]["ok"]}
 
@@ -58,6 +58,17 @@ def run(ctx):
     ntypes = int(outs[0].split("types=")[1].split()[0])
     # 3. every event judged against the reference recomputed in TLA+
     events, tags = judge_traces(ctx, "RlpTrace", traces, timeout=1500)
+    # self-test of the binding: a corrupted decoded value must be rejected by the monitor
+    def corrupt(e):
+        if e["event"] != "Decode":
+            return False
+        for r in e["res"]:
+            if r["t"] == "bytes" and r["ok"] and r["val"]["b"]:
+                r["val"]["b"][0] ^= 1
+                return True
+        return False
+    hits = selftest_corruption(ctx, "RlpTrace", traces[0], corrupt)
+    log("self-test: corrupted event rejected with", sorted({h[2] for h in hits}))
     # 4. vacuity: every decoder accepted and rejected something, every type was encoded,
     #    the stream paths were exercised in both directions
     acc, rej, enc_ok, srcs = {}, {}, {}, {}
@@ -71,14 +82,17 @@ def run(ctx):
             seen_src.add((e["event"], e["src"]))
             samples.append(compact(e))
         if e["event"] == "Decode":
-            real_calls += len(e["res"]) + 4
+            real_calls += len(e["res"]) + 2 + len(e["streams"])
             anyok = e["split"]["ok"]
             for r in e["res"]:
                 d = acc if r["ok"] else rej
                 d[r["t"]] = d.get(r["t"], 0) + 1
                 anyok = anyok or r["ok"]
-            walk_ok += e["walk"]["ok"]
-            walk_err += not e["walk"]["ok"]
+            for w in e["streams"]:
+                d = acc if w["ok"] else rej
+                d[w["n"]] = d.get(w["n"], 0) + 1
+            walk_ok += e["streams"][0]["ok"]
+            walk_err += not e["streams"][0]["ok"]
             split_ok += e["split"]["ok"]
             if len(e["in"]) >= 5 and e["in"][0] in (187, 188, 189, 190, 191, 251, 252, 253, 254, 255):
                 huge += 1
@@ -88,8 +102,8 @@ def run(ctx):
             real_calls += 2
             enc_ok[e["t"]] = enc_ok.get(e["t"], 0) + e["ok"]
             distinct.add(("e", e["t"], json.dumps(e["val"], sort_keys=True)))
-    require(len(acc) == ntypes and len(rej) == ntypes, "some decoder never accepted or never rejected: acc=%d rej=%d of %d"
-            % (len(acc), len(rej), ntypes))
+    require(len(acc) == ntypes + 5 and len(rej) == ntypes + 5, "some decoder never accepted or never rejected: acc=%d rej=%d of %d"
+            % (len(acc), len(rej), ntypes + 5))
     require(len(enc_ok) == ntypes and all(v > 0 for v in enc_ok.values()), "some type was never encoded")
     require(walk_ok > 100 and walk_err > 100 and split_ok > 100, "stream/split paths not exercised")
     require(huge > 10, "no input declaring a size of 4+ bytes")
